@@ -1,0 +1,37 @@
+//go:build verif
+
+// C14: contracts for the state accessors the snapstate change-conflict checks are built on
+// (govc, /verif). Only compiled with -tags verif.
+
+package state
+
+// whether the ready channel of a change has been closed (channels are outside the model: assumption)
+//@ ghost changeIsReady(ref) bool
+
+//@ func (*Change).IsReady
+//@   trusted
+//@   assigns nothing
+//@   ensures result == changeIsReady(c)
+
+//@ func (*Task).Has
+//@   props C14
+//@   assigns nothing
+//@   ensures result == (t.data[key] != nil)
+
+// State.Changes returns exactly the changes registered in the state
+//@ func (*State).Changes
+//@   props C14
+//@   assigns nothing
+//@   ensures [complete] forall k string :: has(s.changes, k) ==> exists i int :: 0 <= i && i < len(result) && result[i] == s.changes[k]
+//@   ensures [members] forall i int :: {result[i]} 0 <= i && i < len(result) ==> exists k string :: has(s.changes, k) && result[i] == s.changes[k]
+//@   loop 0: invariant forall k string :: visited(k) ==> exists i int :: 0 <= i && i < len(res) && res[i] == s.changes[k]
+//@   loop 0: invariant forall i int :: {res[i]} 0 <= i && i < len(res) ==> exists k string :: has(s.changes, k) && res[i] == s.changes[k]
+
+// State.Tasks returns exactly the tasks of the state that are linked to a change
+//@ func (*State).Tasks
+//@   props C14
+//@   assigns nothing
+//@   ensures [complete] forall k string :: has(s.tasks, k) && s.tasks[k].state.changes[s.tasks[k].change] != nil ==> exists i int :: 0 <= i && i < len(result) && result[i] == s.tasks[k]
+//@   ensures [members] forall i int :: {result[i]} 0 <= i && i < len(result) ==> result[i].state.changes[result[i].change] != nil && exists k string :: has(s.tasks, k) && result[i] == s.tasks[k]
+//@   loop 0: invariant forall k string :: visited(k) && s.tasks[k].state.changes[s.tasks[k].change] != nil ==> exists i int :: 0 <= i && i < len(res) && res[i] == s.tasks[k]
+//@   loop 0: invariant forall i int :: {res[i]} 0 <= i && i < len(res) ==> res[i].state.changes[res[i].change] != nil && exists k string :: has(s.tasks, k) && res[i] == s.tasks[k]
